@@ -1590,6 +1590,141 @@ def f6_cases(rng, tier):
             yield c
 
 
+# ---- family 7: one container symbol used two or three times in ONE production, with different followers
+F7_KINDS = {"nobr-list": ["C", "list", [None, "WORD", ",", None, None, None]],
+            "nobr-list-nodelim": ["C", "list", [None, "NUMBER", None, None, None, None]],
+            "opt-list": ["C", "list", ["(", "WORD", ",", ")", None, True]],
+            "nobr-map": ["C", "map", [None, "WORD", ":", "NUMBER", ",", None, None, False]],
+            "opt-map": ["C", "map", ["{", "WORD", ":", "WORD", ",", "}", True, None]],
+            "seq": ["C", "seq", ["WORD", "NUMBER", "LST"]]}
+
+
+def f7_container(rng, kind, force_empty):
+    """(text, expectation) of one use of the container; force_empty: absent / empty"""
+    n = 0 if force_empty else rng.choice([0, 1, 2, 3])
+    if kind in ("nobr-list", "opt-list"):
+        vals = [rng.choice(WORDS) for _ in range(n)]
+        body = (ws(rng) + "," + ws(rng)).join(vals)
+        if kind == "nobr-list":
+            return body, vals
+        if force_empty or rng.random() < 0.3:
+            return "", None
+        return "(" + ws(rng) + body + ws(rng) + ")", vals
+    if kind == "nobr-list-nodelim":
+        vals = [str(rng.randrange(50)) for _ in range(n)]
+        return sep(rng).join(vals), vals
+    if kind in ("nobr-map", "opt-map"):
+        pairs = [[rng.choice(["k", "kk", "z"]), str(rng.randrange(9)) if kind == "nobr-map" else rng.choice(WORDS)]
+                 for _ in range(n)]
+        out = []
+        for k, v in pairs:
+            for ent in out:
+                if ent[0] == k:
+                    ent[1] = v
+                    break
+            else:
+                out.append([k, v])
+        body = (ws(rng) + "," + ws(rng)).join(k + ws(rng) + ":" + ws(rng) + v for k, v in pairs)
+        if kind == "nobr-map":
+            return body, {"map": out}
+        if force_empty or rng.random() < 0.3:
+            return "", None
+        return "{" + ws(rng) + body + ws(rng) + "}", {"map": out}
+    els, parts = [], []
+    for _ in range(n):
+        r = rng.random()
+        if r < 0.4:
+            w = rng.choice(WORDS)
+            els.append({"el": "WORD", "v": w})
+            parts.append(w)
+        elif r < 0.7:
+            v = str(rng.randrange(50))
+            els.append({"el": "NUMBER", "v": v})
+            parts.append(v)
+        else:
+            ws_ = [rng.choice(WORDS) for _ in range(rng.choice([0, 1, 2]))]
+            els.append({"el": "LST", "v": ws_})
+            parts.append("[" + ws(rng) + ("," + ws(rng)).join(ws_) + "]")
+    return sep(rng).join(parts), {"seq": els}
+
+
+def f7_cases(rng, tier):
+    quick = tier == "quick"
+    followers = ["=", ";", "#", "@", "|", "<", ">"]
+    for kind in F7_KINDS:
+        for uses in (2, 3):
+            for last_is_end in (True, False):
+                for _ in range(2 if quick else 20):
+                    fs = rng.sample(followers, uses)
+                    prod = []
+                    for i in range(uses):
+                        prod.append("C")
+                        if i < uses - 1 or not last_is_end:
+                            prod.append(fs[i])
+                    prods = [["E", "plain", [prod]], list(F7_KINDS[kind])]
+                    if kind == "seq":
+                        prods.append(["LST", "list", ["[", "WORD", ",", "]", None, None]])
+                    spec = {"prods": prods, "keep": None, "smart": rng.random() < 0.5, "start": "E"}
+                    items = []
+                    for _ in range(6):
+                        empties = [rng.random() < 0.45 for _ in range(uses)]
+                        text, ch, k = ws(rng), [], 0
+                        for sym in prod:
+                            if sym == "C":
+                                t, e = f7_container(rng, kind, empties[k])
+                                k += 1
+                                text += t + ws(rng)
+                                ch.append(e)
+                            else:
+                                text += sym + ws(rng)
+                                ch.append(sym)
+                        exp = {"te": "E", "ch": ch} if len(ch) > 1 else ch[0]
+                        items.append({"text": text, "exp": ["ok", exp], "size": [2, 1],
+                                      "tags": ["f7-%s-x%d" % (kind, uses), "f7-last-at-end" if last_is_end else "f7-last-followed"]})
+                    c = make_case(spec, items, {"kind": "f7", "what": kind, "uses": uses})
+                    if c is not None:
+                        yield c
+    # a map whose key and value are the same non-terminal, the value ending in an absent optional list
+    for _ in range(10 if quick else 120):
+        afd = rng.choice([None, True, False])
+        spec = {"prods": [["E", "plain", [["MAP"]]],
+                          ["MAP", "map", ["{", "ATOM", ":", "ATOM", ",", "}", None, afd]],
+                          ["ATOM", "plain", [["REF"], ["NUMBER"]]],
+                          ["REF", "plain", [["WORD", "INDEX"]]],
+                          ["INDEX", "list", ["[", "NUMBER", ",", "]", None, True]]],
+                "keep": None, "smart": rng.random() < 0.5, "start": "E"}
+        items = []
+        for _ in range(8):
+            def atom():
+                if rng.random() < 0.4:
+                    v = str(rng.randrange(20))
+                    return v, v
+                w = rng.choice(WORDS)
+                if rng.random() < 0.5:
+                    return w, {"te": "REF", "ch": [w, None]}
+                idx = [str(rng.randrange(9)) for _ in range(rng.choice([0, 1, 2]))]
+                return w + ws(rng) + "[" + ws(rng) + ("," + ws(rng)).join(idx) + "]", {"te": "REF", "ch": [w, idx]}
+            out, parts = [], []
+            for _ in range(rng.choice([0, 1, 2, 3])):
+                kt, ke = atom()
+                vt, ve = atom()
+                parts.append(kt + ws(rng) + ":" + ws(rng) + vt + ws(rng))
+                if isinstance(ke, str):
+                    for ent in out:
+                        if ent[0] == ke:
+                            ent[1] = ve
+                            break
+                    else:
+                        out.append([ke, ve])
+                else:
+                    out.append([ke, ve])
+            items.append({"text": ws(rng) + "{" + ws(rng) + ("," + ws(rng)).join(parts) + "}" + ws(rng),
+                          "exp": ["ok", {"map": out}], "size": [len(parts), 2], "tags": ["f7-map-key=value-nonterminal"]})
+        c = make_case(spec, items, {"kind": "f7-map"})
+        if c is not None:
+            yield c
+
+
 # ------------------------------------------------------------------ building cases
 def build_lines(case):
     lines = [case["g"], case["G"]]
@@ -1842,6 +1977,7 @@ def gen_cases(rng, tier):
     yield from f4_cases(rng, tier)
     yield from f5_cases(rng, tier)
     yield from f6_cases(rng, tier)
+    yield from f7_cases(rng, tier)
 
 
 def search_cases(rng, tier):
@@ -1987,7 +2123,9 @@ LEVEL_NOTE = (
     "(optional, bracket-less, sequences) at the very end of the text 1-3 levels below the start symbol; item / value / element "
     "symbols whose alternatives share the first token (PAIR | WORD, SET | MAP on '{', ASSIGN | WORD) so that roll-back reaches "
     "below the top frame; call sequences on one parser object with failing calls (unclosed comment, foreign character, parse "
-    "error, empty text) before valid texts.")
+    "error, empty text) before valid texts; one container symbol (bracket-less list / map, optional list / map, sequence) used two "
+    "or three times in ONE production with different followers, any of the uses absent / empty, last use at the end of the "
+    "text or followed; maps whose key and value are the same non-terminal ending in an absent optional list.")
 TECHNIQUE = ("Lean 4 theorems over an executable structural-recursive model of the templates and the cleanuper (derivation "
              "shapes as inductive predicates, case analysis over all option fields) + translator for generated names + "
              "composition with the LL parser model (constructor + parse loop; a local 'predicted by ordered choice' lemma for "
